@@ -5,6 +5,7 @@ import (
 	"go/ast"
 	"go/token"
 	"go/types"
+	"strconv"
 	"strings"
 )
 
@@ -179,9 +180,204 @@ func init() {
 		}
 		sb.WriteString("\ndef readBytesBody : List String := " + LeanStrList(rbody) + "\n")
 		sb.WriteString("\ndef writeBytesBody : List String := " + LeanStrList(body) + "\n")
+		// ---- the rest of the page factory (Model/QueueFactory.lean mirrors it branch for branch):
+		// every condition, every assignment / map update and the call sequence (log calls dropped) of
+		// AcquirePage, GetPage, Close, loadPages, NewFactory; the file name format
+		sb.WriteString("\n-- pkg/queue/page/factory.go\n")
+		for _, x := range [][2]string{{"AcquirePage", "fctAcquire"}, {"GetPage", "fctGetPage"}, {"Close", "fctClose"},
+			{"loadPages", "fctLoadPages"}, {"pageFileName", "fctFileName"}} {
+			fd := FindFunc(ff, "factory", x[0])
+			if fd == nil || fd.Body == nil {
+				problems = append(problems, "factory."+x[0]+" not found")
+				fd = nil
+			}
+			sb.WriteString("\ndef " + x[1] + "Conds : List String := " + LeanStrList(c05CondsNil(fd)) + "\n")
+			sb.WriteString("\ndef " + x[1] + "Stmts : List String := " + LeanStrList(c05Stmts(fd)) + "\n")
+			sb.WriteString("\ndef " + x[1] + "Calls : List String := " + LeanStrList(c05CallsNoLog(fd)) + "\n")
+		}
+		nf := FindFunc(ff, "", "NewFactory")
+		if nf == nil {
+			problems = append(problems, "page.NewFactory not found")
+		}
+		sb.WriteString("\ndef fctNewCalls : List String := " + LeanStrList(c05CallsNoLog(nf)) + "\n")
+		sb.WriteString("\ndef fctPageSuffix : String := " + strconv.Quote(c05StringConst(ff, "pageSuffix")) + "\n")
+		// ---- NewQueue: which factories it creates with which page size, the fresh-directory branch
+		// (both sequences -1, stored at their meta offsets), initSequence otherwise, then initDataPageIndex
+		nq := FindFunc(qf, "", "NewQueue")
+		if nq == nil {
+			problems = append(problems, "queue.NewQueue not found")
+		}
+		sb.WriteString("\n-- pkg/queue/queue.go NewQueue\n")
+		sb.WriteString("\ndef newQueueConds : List String := " + LeanStrList(c05CondsNil(nq)) + "\n")
+		sb.WriteString("\ndef newQueueAccesses : List String := " + LeanStrList(c05AccessesNil(nq)) + "\n")
+		sb.WriteString("\ndef newQueueCalls : List String := " + LeanStrList(c05CallsNoLog(nq)) + "\n")
+		sb.WriteString("\ndef newQueueFactoryArgs : List String := " + LeanStrList(c05CallArgs(nq, "newPageFactoryFunc")) + "\n")
+		// ---- replica/partition.go: the callers of Put / AppendedSeq / SetAppendedSeq / GC
+		_, pf, err := ParseFile(repo, "replica/partition.go")
+		if err != nil {
+			return "", err
+		}
+		sb.WriteString("\n-- replica/partition.go\n")
+		for _, x := range [][2]string{{"WriteLog", "writeLog"}, {"ReplicaLog", "replicaLog"}, {"ReplicaAckIndex", "replicaAckIndex"},
+			{"ResetReplicaIndex", "resetReplicaIndex"}, {"Close", "partitionClose"}} {
+			fd := FindFunc(pf, "partition", x[0])
+			if fd == nil || fd.Body == nil {
+				problems = append(problems, "partition."+x[0]+" not found")
+				fd = nil
+			}
+			sb.WriteString("\ndef " + x[1] + "Conds : List String := " + LeanStrList(c05CondsNil(fd)) + "\n")
+			sb.WriteString("\ndef " + x[1] + "Stmts : List String := " + LeanStrList(c05Stmts(fd)) + "\n")
+			sb.WriteString("\ndef " + x[1] + "Calls : List String := " + LeanStrList(c05CallsNoLog(fd)) + "\n")
+		}
+		ie := FindFunc(pf, "partition", "IsExpire")
+		var ieHead []string
+		if ie != nil && ie.Body != nil {
+			for i, st := range ie.Body.List {
+				if i < 2 {
+					ieHead = append(ieHead, c05Text(st))
+				}
+			}
+		}
+		sb.WriteString("\ndef isExpireHead : List String := " + LeanStrList(ieHead) + "\n")
+		// FanOutQueue.SetAppendedSeq / Queue(): the partition reaches the queue through them
+		_, fqf, err := ParseFile(repo, "pkg/queue/fanout_queue.go")
+		if err != nil {
+			return "", err
+		}
+		sb.WriteString("\ndef fanoutSetAppendedCalls : List String := " + LeanStrList(c05CallsNoLog(FindFunc(fqf, "fanOutQueue", "SetAppendedSeq"))) + "\n")
+		sb.WriteString("\ndef fanoutSetAppendedArgs : List String := " + LeanStrList(c05CallArgs(FindFunc(fqf, "fanOutQueue", "SetAppendedSeq"), "SetAppendedSeq")) + "\n")
+		sb.WriteString("\ndef fanoutQueueStmts : List String := " + LeanStrList(c05Stmts(FindFunc(fqf, "fanOutQueue", "Queue"))) + "\n")
+		sb.WriteString("\ndef resetReplicaIndexArgs : List String := " +
+			LeanStrList(c05CallArgs(FindFunc(pf, "partition", "ResetReplicaIndex"), "SetAppendedSeq")) + "\n")
 		sb.WriteString("\n-- facts that could not be re-extracted (placeholders were emitted for them)\ndef extractionProblems : List String := " + LeanStrList(problems) + "\n")
 		return sb.String(), nil
 	}})
+}
+
+func c05CondsNil(fd *ast.FuncDecl) []string {
+	if fd == nil || fd.Body == nil {
+		return nil
+	}
+	return c05Conds(fd)
+}
+
+func c05AccessesNil(fd *ast.FuncDecl) []string {
+	if fd == nil || fd.Body == nil {
+		return nil
+	}
+	return c05Accesses(fd)
+}
+
+// c05Stmts lists, in source order, the text of every return statement, assignment / short variable
+// declaration and inc-dec of fd (function literals included: deferred clean-up is part of the order).
+func c05Stmts(fd *ast.FuncDecl) []string {
+	var out []string
+	if fd == nil || fd.Body == nil {
+		return nil
+	}
+	ast.Inspect(fd.Body, func(n ast.Node) bool {
+		switch x := n.(type) {
+		case *ast.ReturnStmt, *ast.AssignStmt:
+			out = append(out, c05Text(x))
+		case *ast.IncDecStmt:
+			out = append(out, types.ExprString(x.X)+x.Tok.String())
+		}
+		return true
+	})
+	return out
+}
+
+// c05CallsNoLog lists the calls of fd in evaluation order (arguments before the call, "defer:"
+// prefix for deferred calls) with the callee's full selector text; calls on loggers and on the
+// statistics counters — and everything inside their arguments — are dropped.
+func c05CallsNoLog(fd *ast.FuncDecl) []string {
+	var out []string
+	if fd == nil || fd.Body == nil {
+		return nil
+	}
+	noisy := func(s string) bool {
+		return strings.Contains(s, "ogger") || strings.Contains(s, "statistics.") || strings.Contains(s, "Statistics")
+	}
+	var walk func(n ast.Node, prefix string)
+	walk = func(n ast.Node, prefix string) {
+		ast.Inspect(n, func(m ast.Node) bool {
+			switch x := m.(type) {
+			case *ast.DeferStmt:
+				walk(x.Call, prefix+"defer:")
+				return false
+			case *ast.FuncLit:
+				walk(x.Body, prefix+"λ:")
+				return false
+			case *ast.CallExpr:
+				full := types.ExprString(x.Fun)
+				if noisy(full) {
+					return false
+				}
+				for _, a := range x.Args {
+					walk(a, prefix)
+				}
+				if se, ok := x.Fun.(*ast.SelectorExpr); ok {
+					walk(se.X, prefix)
+				}
+				out = append(out, prefix+full)
+				return false
+			}
+			return true
+		})
+	}
+	walk(fd.Body, "")
+	return out
+}
+
+// c05CallArgs lists the argument text of every call of the plain function / variable `name` in fd.
+func c05CallArgs(fd *ast.FuncDecl, name string) []string {
+	var out []string
+	if fd == nil || fd.Body == nil {
+		return nil
+	}
+	ast.Inspect(fd.Body, func(n ast.Node) bool {
+		if c, ok := n.(*ast.CallExpr); ok {
+			hit := false
+			switch f := c.Fun.(type) {
+			case *ast.Ident:
+				hit = f.Name == name
+			case *ast.SelectorExpr:
+				hit = f.Sel.Name == name
+			}
+			if hit {
+				var args []string
+				for _, a := range c.Args {
+					args = append(args, types.ExprString(a))
+				}
+				out = append(out, strings.Join(args, ", "))
+			}
+		}
+		return true
+	})
+	return out
+}
+
+// c05StringConst returns the value of the package-level string constant `name` ("" if absent).
+func c05StringConst(f *ast.File, name string) string {
+	for _, d := range f.Decls {
+		gd, ok := d.(*ast.GenDecl)
+		if !ok || gd.Tok != token.CONST {
+			continue
+		}
+		for _, s := range gd.Specs {
+			vs := s.(*ast.ValueSpec)
+			for i, n := range vs.Names {
+				if n.Name == name && i < len(vs.Values) {
+					if bl, ok := vs.Values[i].(*ast.BasicLit); ok && bl.Kind == token.STRING {
+						if v, err := strconv.Unquote(bl.Value); err == nil {
+							return v
+						}
+					}
+				}
+			}
+		}
+	}
+	return ""
 }
 
 func c05Recv(fd *ast.FuncDecl) string {
